@@ -65,7 +65,7 @@ class ConcCtx(sym.Ctx):
             return z3.simplify(x.z).as_long()
         return x
 
-    def prove(self, name, cond, info=None):
+    def prove(self, name, cond, info=None, assume=True):
         c = z3.simplify(sym.tobool(cond))
         ok = z3.is_true(c)
         if not ok and not z3.is_false(c):
@@ -73,6 +73,9 @@ class ConcCtx(sym.Ctx):
         self.checked.append((name, ok))
         if not ok:
             self.failed.append(name)
+
+    def check(self, name, cond, info=None):
+        self.prove(name, cond, info)
 
     def fail(self, name, info=None):
         self.failed.append(name)
@@ -85,6 +88,15 @@ class ConcCtx(sym.Ctx):
 
 def main():
     rp = json.load(open(sys.argv[1]))
+    if rp.get("api"):
+        from pyvc import api_replay
+        try:
+            rep = api_replay.replay(rp["api"])
+        except Exception as e:
+            print("  public-API replay raised %s: %s\n%s" % (type(e).__name__, e, traceback.format_exc(limit=-4)))
+            rep = bool(rp["api"].get("expect_exception"))
+        print("REPLAY: REPRODUCED" if rep else "REPLAY: NOT-REPRODUCED")
+        return 0
     from pyvc.driver import load_contracts
     reg = load_contracts()
     c = reg[rp["contract"]]
